@@ -16,7 +16,7 @@ class Plain:
 class Service:
     def __init__(self, scale, helper=None):
         self.scale = scale
-        self.helper = helper if helper is not None else Plain()  # an attribute with the default repr (memory address)
+        self.helper = helper
 
     def apply(self, a):
         return a * self.scale
@@ -81,10 +81,12 @@ def battery():
     stable = {
         "set_literal": with_set_literal,
         "functools_wraps": decorated,
-        "bound_method_default_repr_attr": Service(2).apply,
+        "bound_method_plain_state": Service(2).apply,
+        "bound_method_state_holding_a_function": Service(2, helper=decorated).apply,
         "classmethod": Service.make,
-        "closure_over_default_repr_object": closure_over(Plain()),
         "closure_over_set_of_strings": closure_over({"alpha", "beta", "gamma", "delta"}),
+        "closure_over_nested_plain_data": closure_over({"k": [1, ("a", {"x", "y", "z"})], "f": 1.5}),
+        "default_holding_a_frozenset": exec_fn("def f(a, tags=frozenset({'p', 'q', 'r', 's'})):\n    return a\n"),
     }
     distinct = {
         "cells_1_23_vs_12_3": (two_cells(1, 23), two_cells(12, 3)),
@@ -92,6 +94,8 @@ def battery():
         "inner_lambda": (exec_fn("f = lambda a: sorted(a, key=lambda v: v)\n"), exec_fn("f = lambda a: sorted(a, key=lambda v: -v)\n")),
         "instance_state_one_level_down": (Service(2, helper=Service(3)).apply, Service(2, helper=Service(30)).apply),
         "bound_methods": (Service(2).apply, Service(10).apply),
+        "closures_over_two_opaque_objects": (closure_over(Plain()), closure_over(Plain())),
+        "bound_builtin_methods": (closure_over("a+".upper), closure_over("b+".upper)),
     }
     out = {"stable": {k: h(v) for k, v in stable.items()}, "distinct": {k: h(a) != h(b) for k, (a, b) in distinct.items()}, "buildable": {}}
     from hypergraph import FunctionNode
